@@ -2339,6 +2339,15 @@ func foldWholeGeometryRule(p *core.Program, r *core.Report, rule string) {
 						kernels[fn] = true
 						changed = true
 					}
+					// ... or folds the elements of its array parameter one by one through a per-ordinate helper
+					if ld, ok := a.(*ssa.UnOp); ok && ld.Op == token.MUL && !kernels[fn] {
+						if ia, isIA := ld.X.(*ssa.IndexAddr); isIA {
+							if prm, isP := ia.X.(*ssa.Parameter); isP && isFloatSlice(prm.Type()) {
+								kernels[fn] = true
+								changed = true
+							}
+						}
+					}
 				}
 			}
 		}
